@@ -143,6 +143,14 @@ ext("C11", "; management mutation on top of an unreloaded operator edit", " W-mg
 ext("C14", "; operator mutations against concurrent worker calls (W-conc)", " Concurrency part (W-conc, one handle and two handles on the one file): by-id and by-filter cancel / requeue / resume of one caller interleaved statement by statement with dequeues and settlements of the other; a by-filter call counts as a selection followed by the id-based operation on what was selected, which the other caller may separate; results and final content must equal some order of those steps.")
 ext("C20", "", " config_apply write_and_reload whose reload cannot be verified (admin token of the submitted content cannot be loaded by the mcp process; the failure precedes any probe, no network is touched): the previous file must be back.")
 
+ext("C03", "", " Pull API part: nack / dead / extend also over the Worker API; a consumer that keeps its lease alive by repeated extends while a second consumer polls just before the deadline the extends add up to.")
+ext("C04", "; duplicates of one ack/nack in flight at once over HTTP", " Pull API race step: two or three copies of one ack / nack in flight at once, of recent and of older (stale) leases, every statement of the Pull API handlers and both sides of the store calls being scheduling points: a stale lease with no earlier success gets 409 from everybody, a current lease is settled once and somebody is told.")
+ext("C05", "; dispatcher retry delays per message", " Dispatcher part: every retry nack the dispatcher issues (batched settlements of micro-batches included) carries the delay its own message's attempt calls for.")
+ext("C10", "", " Reloads change the route table (a route drawn afresh with new match criteria, removed, added, moved) between requests.")
+ext("C12", "", " Forward-auth routes with copy_headers are part of the ingress profile: long copied values, also overriding a header the client sent, around max_headers.")
+ext("C15", "; endpoint-scoped publish", " Managed routes and the endpoint-scoped publish path are generated (selector hints, managed off, unknown endpoint); batches may hold two invalid items of different kinds: the error names the first offending item of the validation phase that failed (body shape over the whole batch, then item by item, then ids already queued).", "publish_policy global switches are not generated; the crash part drives EnqueueBatch directly (the call a publish makes), not the HTTP handler; input sampling through the real wiring")
+ext("C18", "; traffic during a management mutation", " W-mgmt also lets a message arrive on the endpoint's current route after each statement of a management delete / move in turn: a refused call leaves file and running mapping untouched.")
+
 NA = {
  "C19": "config Parse/Format/Compile are pure functions of the text: no schedule, clock, I/O or fault for a simulation to decide (DESIGN.md §5)",
 }
